@@ -17,7 +17,7 @@ CHECK = {
              "cells cut by the level set), H = 5 sqrt(N_tail)/N (Hoeffding, for points that also used the "
              "tail); the Urban sampling stages (fast gaussian/uniform; excitation both levels fast / one fast / "
              "one Poisson level +- a fast one; ionisation Poisson-only: P(no collision) and the single-collision "
-             "spectrum) are judged the same way against their closed-form laws given the constructor outputs. "
+             "spectrum; ionisation fast regime: number of collisions above alpha E0, median of the Gaussian part) are judged the same way against their closed-form laws given the constructor outputs. "
              "non-trivial = a distinct (sampler case, set of non-default branch tags: retry, cached "
              "value, zero-weight skipped, regime ...) pair in 'support', a distinct lattice case in "
              "'quadrature'."),
@@ -39,9 +39,10 @@ CHECK = {
         "closed form and is not judged; instead (a) every stage branch whose law is explicit is judged against "
         "it given xs_exc_/binding_energy_/xs_ion_ (read with -fno-access-control), (b) those constructor "
         "outputs are judged against the model's mean-loss identity (rel. 1e-9; observed 3e-16), (c) operator() "
-        "is compared bit-for-bit with loss_scaling*(stage1+stage2). Not judged: the fast (Gaussian) part of the "
-        "ionisation stage (xs_ion > 8: alpha, mean, sigma of GEANT3 PHYS332 Eqs. 14-25) beyond support/draws, "
-        "and the case of both excitation levels in the Poisson branch with comparable weights",
+        "is compared bit-for-bit with loss_scaling*(stage1+stage2). In the fast ionisation regime (xs_ion > 8) the law of the number of "
+        "collisions above alpha E0 and the median (= mean) of the Gaussian part are judged, with alpha = "
+        "(n3+8)R/(8R+n3) taken from PHYS332 Eq. 25 as restated in the code; NOT judged: the width of that "
+        "Gaussian (Eq. 19), and the case of both excitation levels in the Poisson branch with comparable weights",
         "EnergyLossHelper's regime choice is compared with the rules documented in the class comments, "
         "skipping configurations within 1e-9 (relative) of a regime boundary unless both sides of the "
         "comparison are bit-identical input doubles (loss == 1e-5, loss == 10*cut with Tmax > cut): there the "
